@@ -7,6 +7,8 @@
 //! input:   D <ci> <glob> <path>*            direct mode: Pattern::glob_with + matches*
 //!          S <ci> <base> <glob> <path>*     selector mode: PathSelector::new(base) with the glob as the
 //!                                           only include path / exclude path / include name
+//!          M <ci> <base> <incs> <excs> <names> <path>*   PathSelector with several include paths, exclude paths
+//!                                           and names (comma-separated lists of strings, "_" = empty list)
 //!          F <regex text>                   regex::verif::get_fixed_prefix
 //!          L <c>                            String::to_lowercase of the single character c
 //! output:  D: `ok <regex text> <res>*` | `err` | `panic`
@@ -17,6 +19,8 @@
 //!             res = <inc.full><exc.full><name.full> ":" <inc.matches_dir(d)>* ":" <exc.matches_dir(d)>*
 //!                   ":" <inc.matches_dir(path)><exc.matches_dir(path)>
 //!             where d ranges over the ancestor directories of the path
+//!          M: `ok - <res>*` | `err`;  sel = names+includes+excludes, sel0 = names+includes
+//!             res = <sel.full><sel0.full> ":" <sel.matches_dir(d)>* ":" <sel0.matches_dir(d)>* ":" <sel.matches_dir(path)><sel0.matches_dir(path)>
 //!          F: `fp <prefix> <max_suffix_len or ->`
 //!          L: `low <string>`
 //! A panic anywhere while evaluating a case gives the single word `panic`.
@@ -126,6 +130,47 @@ fn selector(ci: bool, base: &str, glob: &str, paths: &[String]) -> String {
     out
 }
 
+fn dec_list(f: &str) -> Vec<String> {
+    if f == "_" {
+        vec![]
+    } else {
+        f.split(',').map(dec).collect()
+    }
+}
+
+/// selectors with several include paths / excludes / names; `sel0` is the same selector without excludes
+fn multi(ci: bool, base: &str, incs: &[String], excs: &[String], names: &[String], paths: &[String]) -> String {
+    let mk = |l: &[String]| -> Result<Vec<Pattern>, ()> {
+        l.iter().map(|g| Pattern::glob_with(g, &opts(ci)).map_err(|_| ())).collect()
+    };
+    if mk(incs).is_err() || mk(excs).is_err() || mk(names).is_err() {
+        return "err".to_string();
+    }
+    let sel0 = PathSelector::new(Path::from(base))
+        .include_names(mk(names).unwrap())
+        .include_paths(mk(incs).unwrap());
+    let sel = sel0.clone().exclude_paths(mk(excs).unwrap());
+    let mut out = "ok -".to_string();
+    for p in paths {
+        let path = Path::from(p.as_str());
+        out.push(' ');
+        out.push(bit(sel.matches_full_path(&path)));
+        out.push(bit(sel0.matches_full_path(&path)));
+        out.push(':');
+        for d in ancestors(p) {
+            out.push(bit(sel.matches_dir(&Path::from(d))));
+        }
+        out.push(':');
+        for d in ancestors(p) {
+            out.push(bit(sel0.matches_dir(&Path::from(d))));
+        }
+        out.push(':');
+        out.push(bit(sel.matches_dir(&path)));
+        out.push(bit(sel0.matches_dir(&path)));
+    }
+    out
+}
+
 fn case(line: &str) -> String {
     let f: Vec<&str> = line.split(' ').filter(|x| !x.is_empty()).collect();
     match f.first().copied() {
@@ -136,6 +181,10 @@ fn case(line: &str) -> String {
         Some("S") if f.len() >= 4 => {
             let paths: Vec<String> = f[4..].iter().map(|x| dec(x)).collect();
             selector(f[1] == "1", &dec(f[2]), &dec(f[3]), &paths)
+        }
+        Some("M") if f.len() >= 6 => {
+            let paths: Vec<String> = f[6..].iter().map(|x| dec(x)).collect();
+            multi(f[1] == "1", &dec(f[2]), &dec_list(f[3]), &dec_list(f[4]), &dec_list(f[5]), &paths)
         }
         Some("F") if f.len() == 2 => {
             let (p, m) = get_fixed_prefix(&dec(f[1]));
